@@ -83,6 +83,33 @@ def rule_progress(ctx: Ctx):
     if not ba:
         return
     bav = norm(ba[0].targets[0])
+    # the working copy must shrink by removing the kept units THEMSELVES (Continuum.remove); removal by position needs an ordering
+    # invariant that nothing establishes (kept alignments are chosen by right end, sets are sorted by start)
+    positional = []
+    direct = []
+    for n in ast.walk(W):
+        if isinstance(n, ast.Delete):
+            for t in n.targets:
+                if f"{cp}._annotations" in norm(t) or f"{cp}._categories" in norm(t):
+                    positional.append(n)
+        elif isinstance(n, ast.Call) and isinstance(n.func, ast.Attribute) and f"{cp}._annotations" in norm(n.func.value):
+            if n.func.attr in ("pop", "clear", "popitem"):
+                positional.append(n)
+            elif n.func.attr in ("remove", "discard", "add", "update", "difference_update"):
+                direct.append(n)
+        elif isinstance(n, (ast.Assign, ast.AugAssign)):
+            for t in (n.targets if isinstance(n, ast.Assign) else [n.target]):
+                if f"{cp}._annotations" in norm(t) or f"{cp}._categories" in norm(t):
+                    direct.append(n)
+    for n in positional:
+        ctx.bad("R-C10-2", f, n, f"`{norm(n)[:80]}` drops units from the working copy by POSITION, not the units of the kept unitary alignments themselves: "
+                f"unit sets are sorted by start while unitary alignments are kept by their right end, so with nested / long overlapping units a kept unit "
+                f"stays in the copy (aligned again later) and an unaligned one is lost: the result is not a partition", key="positional-removal")
+    for n in direct:
+        ctx.undecided("R-C10-2", f, n, "the working copy's representation is written directly instead of through Continuum.remove: not recognised (not a verdict)",
+                      key="direct-write")
+    if positional:
+        return
     # the loop over the chosen unitary alignments
     floops = [L for L in W.body if isinstance(L, ast.For)]
     ctx.require(len(floops) == 1, "R-C10-1", "loop over the chosen unitary alignments not found")
